@@ -17,11 +17,36 @@ let digest (b : M.block) =
   let f = (if b.M.b_empty then 1 else 0) + (if b.M.b_dirty then 2 else 0) + (if b.M.b_incr then 4 else 0) in
   Printf.sprintf "%d %d %d %d %d" (iz b.M.b_ss) (iz b.M.b_se) (iz b.M.b_largest) f (iz b.M.b_aused)
 
+(* `c09 spec`: the proven trace judge (JitSpec.spec_run) over events built from the implementation's answers:
+     C g0 pools pad | a size blk off len bytes pool | r blk off | s blk off newlen | z | t allocs | E  ->  J ok <live> / J bad <event index> *)
+let spec_mode () =
+  let g0 = ref 64 and pools = ref 1 and pad = ref 1 and evs = ref [] in
+  (try
+    while true do
+      let line = input_line stdin in
+      match List.filter (fun s -> s <> "") (String.split_on_char ' ' (String.trim line)) with
+      | "C" :: g :: p :: d :: _ -> g0 := int_of_string g; pools := int_of_string p; pad := int_of_string d; evs := []
+      | "a" :: size :: blk :: off :: len :: bytes :: pool :: _ ->
+        evs := M.EAlloc (cz_of_string size, cz_of_string blk, cz_of_string off, cz_of_string len, cz_of_string bytes, cz_of_string pool) :: !evs
+      | "r" :: blk :: off :: _ -> evs := M.ERelease (cz_of_string blk, cz_of_string off) :: !evs
+      | "s" :: blk :: off :: nl :: _ -> evs := M.EShrink (cz_of_string blk, cz_of_string off, cz_of_string nl) :: !evs
+      | "z" :: _ -> evs := M.EReset :: !evs
+      | "t" :: n :: _ -> evs := M.EStats (cz_of_string n) :: !evs
+      | "E" :: _ ->
+        (match M.spec_run (zi !g0) (zi !pools) (zi !pad) [] (List.rev !evs) (zi 0) with
+         | M.Inl i -> Printf.printf "J bad %d\n" (iz i)
+         | M.Inr l -> Printf.printf "J ok %d\n" (List.length l));
+        evs := []
+      | _ -> ()
+    done
+  with End_of_file -> ())
+
 let () =
+  if Array.length Sys.argv > 1 && Sys.argv.(1) = "spec" then spec_mode () else
   let vbits = if Array.length Sys.argv > 1 then int_of_string Sys.argv.(1) else 15 in
   let variant = { M.fix_incr = vbits land 1 <> 0; fix_empty = vbits land 2 <> 0; fix_reset = vbits land 4 <> 0;
                   fix_init = vbits land 8 <> 0 } in
-  let cfg = ref None and st = ref None and handles = ref [||] and nh = ref 0 and unsound = ref false in
+  let cfg = ref None and st = ref None and cur = ref [] and handles = ref [||] and nh = ref 0 and unsound = ref false in
   let check_ws = not variant.M.fix_incr in
   let push h =
     if !nh >= Array.length !handles then begin
@@ -30,8 +55,9 @@ let () =
   let block_of s id = M.find_block (zi id) s.M.blocks in
   (* window soundness of the block an operation touched (all other blocks are unchanged; a reset leaves cleared blocks) *)
   let after_op ?blk s =
-    st := Some s;
+    st := Some s.M.cs_st; cur := s.M.cs_cur;
     if check_ws then
+      let s = s.M.cs_st in
       match blk with
       | Some id -> (match M.find_block (zi id) s.M.blocks with
                     | Some b -> if not (M.block_wsound b) then unsound := true
@@ -55,23 +81,24 @@ let () =
         let pools = if opt land 2 <> 0 then 3 else 1 in
         let c = { M.c_gran = zi g'; c_pools = zi pools; c_bsize = zi bs'; c_pad = (opt land 0x10 = 0);
                   c_imm = (opt land 8 <> 0); c_var = variant } in
-        cfg := Some c; st := Some (M.init_state c); handles := [||]; nh := 0; unsound := false;
+        cfg := Some c; st := Some (M.init_state c); cur := (M.init_cstate c).M.cs_cur; handles := [||]; nh := 0; unsound := false;
         Printf.printf "H %d %d %d %d\n" (if M.is_initialized c then 1 else 0) pools g' bs'
       | _ when !cfg = None -> print_endline "BAD"
       | _ when !unsound -> print_endline "U"
       | op :: args ->
         let c = match !cfg with Some c -> c | None -> assert false in
         let s = match !st with Some s -> s | None -> assert false in
+        let cs = { M.cs_st = s; cs_cur = !cur } in
         let ai k = int_of_string (List.nth args k) in
         (match op with
          | "A" ->
-           let (s', r) = M.alloc c s (cz_of_string (List.nth args 0)) in
+           let (s', r) = M.alloc_c c cs (cz_of_string (List.nth args 0)) in
            (match r with
             | M.RAlloc (M.Ok, id, off, len) ->
               after_op ~blk:(iz id) s';
               push { live = true; ever = true; blk = iz id; off = iz off };
-              (match block_of s' (iz id) with
-               | Some b -> Printf.printf "A ok %d %d %d %s\n" (iz id) (iz off) (iz len) (digest b)
+              (match block_of s'.M.cs_st (iz id) with
+               | Some b -> Printf.printf "A ok %d %d %d %s %d %d\n" (iz id) (iz off) (iz len) (digest b) (iz b.M.b_bytes) (iz b.M.b_pool)
                | None -> print_endline "A ok ?")
             | M.RAlloc (e, _, _, _) -> push { live = false; ever = false; blk = -1; off = 0 }; Printf.printf "A %s\n" (err_name e)
             | _ -> print_endline "A ?")
@@ -80,13 +107,13 @@ let () =
            if h < 0 || h >= !nh || not !handles.(h).live then print_endline "R skip"
            else begin
              let hd = !handles.(h) in
-             let (s', r) = M.release c s (zi hd.blk) (zi hd.off) in
+             let (s', r) = M.release_c c cs (zi hd.blk) (zi hd.off) in
              (match r with
               | M.RRelease (e, id, del) ->
                 if e = M.Ok then hd.live <- false;
                 after_op ~blk:hd.blk s';
                 if del then Printf.printf "R %s %d deleted\n" (err_name e) hd.blk
-                else (match block_of s' hd.blk with
+                else (match block_of s'.M.cs_st hd.blk with
                       | Some b -> Printf.printf "R %s %d %s\n" (err_name e) hd.blk (digest b)
                       | None -> Printf.printf "R %s %d deleted\n" (err_name e) hd.blk)
               | _ -> print_endline "R ?")
@@ -96,12 +123,12 @@ let () =
            if h < 0 || h >= !nh || not !handles.(h).live then print_endline "S skip"
            else begin
              let hd = !handles.(h) in
-             let (s', r) = M.shrink c s (zi hd.blk) (zi hd.off) (zi ns) in
+             let (s', r) = M.shrink_c c cs (zi hd.blk) (zi hd.off) (zi ns) in
              (match r with
               | M.RShrink (e, _, len) ->
                 if ns = 0 then hd.live <- false;
                 after_op ~blk:hd.blk s';
-                (match block_of s' hd.blk with
+                (match block_of s'.M.cs_st hd.blk with
                  | Some b -> Printf.printf "S %s %d %d %s\n" (err_name e) (iz len) hd.blk (digest b)
                  | None -> Printf.printf "S %s %d %d deleted\n" (err_name e) (iz len) hd.blk)
               | _ -> print_endline "S ?")
@@ -128,9 +155,9 @@ let () =
             | 2 -> print_endline "F inval_arg"
             | _ -> print_endline "BAD")
          | "Z" ->
-           let s' = M.reset c s (ai 0 <> 0) in
+           let s' = M.reset_c c cs (ai 0 <> 0) in
            for i = 0 to !nh - 1 do !handles.(i).live <- false done;
-           after_op s'; stats_line "Z" c s'
+           after_op s'; stats_line "Z" c s'.M.cs_st
          | "T" -> stats_line "T" c s
          | "W" ->
            let h = ai 0 in
@@ -146,6 +173,10 @@ let () =
                    let d = String.concat ":" (String.split_on_char ' ' (digest b)) in
                    Buffer.add_string buf (Printf.sprintf " %d:%d:%d:%d:%s" (iz b.M.b_id) p (iz b.M.b_bytes) (iz b.M.b_area) d)
                  end) s.M.blocks
+           done;
+           Buffer.add_string buf " |";
+           for p = 0 to pools - 1 do
+             Buffer.add_string buf (match M.get_cur cs (zi p) with Some id -> Printf.sprintf " %d" (iz id) | None -> " -1")
            done;
            Printf.printf "D %d%s\n" !n (Buffer.contents buf)
          | "X" -> cfg := None; st := None; print_endline "X"
